@@ -80,7 +80,8 @@ CLAIMS = {
             "synchronizes/retires inside a lock scope, incl. implicit destructor calls; entry points relying on the caller's lock must be in the "
             "reviewed contract table); MichaelList retires a node only after winning the CAS that unlinks that node, unlinks only after winning "
             "the mark CAS, publishes a node after initialising its link; LazyList links/unlinks only inside an RAII position lock and after "
-            "validate(), retires outside the lock. Linearizability / no-duplicate-key under interleavings is NOT decided.",
+            "validate(), retires outside the lock; a successful LazyList validation implies the predecessor is not logically removed (R13.9). "
+            "Linearizability / no-duplicate-key under interleavings is NOT decided.",
             "static analysis: typestate on enumerated CFG paths + belief propagation over the call graph (asserts harvested from a -UNDEBUG parse)",
             "DESIGN.md §4 C13"),
     "C14": ("other", "Path rules over the hash sets: SplitListSet (HP/DHP, RCU, nogc) init_bucket publishes a bucket only after its dummy node "
@@ -99,6 +100,7 @@ CLAIMS = {
             "only when won, descriptors freed directly only when unpublished, nodes retired only by the winner of the Mark CAS, functor/counter "
             "after help_delete succeeded, new internal node ordered by the comparison and initialised before the flag CAS; Bronson map: node "
             "fields written only under that node's monitor lock (lockset on paths, *_locked parameter convention inferred from the call sites). "
+            "Bronson members given (pNode, nVersion) re-validate the version under pNode's lock before writing pNode (R15.7). "
             "Linearizability and the extract_min/max emptiness claims are NOT decided.",
             "static analysis: typestate / value-numbered path tables on enumerated CFG paths + who-may-write tables + belief propagation over the call graph",
             "DESIGN.md §4 C15"),
